@@ -128,6 +128,7 @@ func caseC06(c *Ctx) {
 		// a leaf with a 300-byte name below the first root
 		forest[0].Kids = append(forest[0].Kids, &MNode{Name: strings.Repeat("n", 300)})
 	}
+	restricted := c.Chance(1, 3)
 	sp := genSpelling(c, false)
 	doc, _ := spell(c, forest, sp)
 	nNodes := 0
@@ -137,6 +138,7 @@ func caseC06(c *Ctx) {
 	c.Scenario["op"] = op.String()
 	c.Scenario["forest"] = forestString(forest)
 	c.Scenario["state"] = st.kind
+	c.Scenario["unusual_permissions"] = restricted
 	c.Scenario["preexisting"] = st.pre
 	c.st.Count("mode:" + mode)
 	c.st.Count("state:" + st.kind)
@@ -161,6 +163,12 @@ func caseC06(c *Ctx) {
 			os.MkdirAll(target, 0o755)
 			os.WriteFile(filepath.Join(target, "zz-bystander.txt"), []byte("keep"), 0o644)
 			os.MkdirAll(filepath.Join(target, "zz-bystander-dir", "x"), 0o755)
+		}
+		if restricted && st.kind != "missing" && st.kind != "below-file" {
+			// unusual permissions on what exists already: they must survive the call
+			os.Chmod(target, 0o700)
+			os.Chmod(filepath.Join(target, "zz-bystander-dir"), 0o750)
+			os.Chmod(filepath.Join(target, "zz-bystander.txt"), 0o600)
 		}
 		for n, k := range st.pre {
 			p := filepath.Join(target, n)
